@@ -45,6 +45,7 @@ class Engine:
         self.forks_on_path = 0
         self.exact_width = False
         self.hash_collide = False
+        self.sampled = None          # set when an unbounded value was concretised by sampling (run is incomplete)
         self.symbolic = True
 
     # ------------------------------------------------------------------ per path
